@@ -65,11 +65,56 @@ fn child_body(engine: &mut Engine, case: &Value, chan: &mut std::fs::File, out_f
     let empty = vec![];
     let units = case["units"].as_array().unwrap_or(&empty);
     let stop_on_error = case["stop_on_error"].as_bool().unwrap_or(false);
+    // the hook counters are process-wide and the template engine's boot already moved them:
+    // a case reports what happened during the case
+    let counters_at_start: std::collections::HashMap<&'static str, u64> =
+        steel::verif::counters().into_iter().collect();
     if let Some(n) = case["gc_every"].as_u64() {
         steel::verif::set_gc_every(n, case["gc_jitter"].as_u64().unwrap_or(0));
     }
     if let Some(p) = case["gc_poison"].as_bool() {
         steel::verif::set_gc_poison(p);
+    }
+    if let Some(us) = case["sync_delay_us"].as_u64() {
+        // H-sync: seeded delays at the suspension points of the stop-the-world handshake
+        steel::verif::set_sync_delay(us, case["sync_seed"].as_u64().unwrap_or(1));
+    }
+    if let Some(stall_ms) = case["stall_ms"].as_u64() {
+        // H-prog watchdog: the run is *stalled* when none of the progress counters moved for
+        // stall_ms (decided on the counters, not on the wall clock of the whole run); the
+        // child reports the counters and exits with status 97.
+        std::thread::spawn(move || {
+            use std::sync::atomic::Ordering::Relaxed;
+            let snap = || {
+                [
+                    steel::verif::INSTRUCTIONS.load(Relaxed),
+                    steel::verif::SAFEPOINT_ENTRIES.load(Relaxed),
+                    steel::verif::STOP_THE_WORLD.load(Relaxed),
+                    steel::verif::STOP_THE_WORLD_FINISHED.load(Relaxed),
+                    steel::verif::FULL_COLLECTIONS.load(Relaxed),
+                    steel::verif::FORCED_COLLECTIONS.load(Relaxed),
+                ]
+            };
+            let mut last = snap();
+            let mut since = std::time::Instant::now();
+            loop {
+                std::thread::sleep(std::time::Duration::from_millis(100));
+                let now = snap();
+                if now != last {
+                    last = now;
+                    since = std::time::Instant::now();
+                } else if since.elapsed().as_millis() as u64 >= stall_ms {
+                    let nthreads = std::fs::read_dir("/proc/self/task").map(|d| d.count()).unwrap_or(0);
+                    eprintln!(
+                        "VHSTALL {}",
+                        json!({"instructions": now[0], "safepoint_entries": now[1], "stop_the_world": now[2],
+                               "stop_the_world_finished": now[3], "stoppers_active": steel::verif::STOPPERS_ACTIVE.load(Relaxed),
+                               "os_threads": nthreads, "emits": crate::hostfns::emit_count()})
+                    );
+                    unsafe { libc::_exit(97) };
+                }
+            }
+        });
     }
     let as_module = case["as_module"].as_bool().unwrap_or(false);
     let mod_dir = format!(
@@ -158,6 +203,13 @@ fn child_body(engine: &mut Engine, case: &Value, chan: &mut std::fs::File, out_f
     let _ = std::fs::remove_dir_all(&mod_dir);
     let counters: serde_json::Map<String, Value> = steel::verif::counters()
         .into_iter()
+        .map(|(k, v)| {
+            if k.starts_with("GC_LIVE") || k == "STOPPERS_ACTIVE" {
+                (k, v) // gauges
+            } else {
+                (k, v.wrapping_sub(counters_at_start.get(k).copied().unwrap_or(0)))
+            }
+        })
         .filter(|(_, v)| *v != 0)
         .map(|(k, v)| (k.to_string(), json!(v)))
         .collect();
